@@ -34,7 +34,7 @@ func VH_C04_mutation_rejected() {
 	issuer, _ := wallet.New()
 	receiver, _ := wallet.New()
 	node, _ := wallet.New()
-	field := verifrt.Choose("field", 18)
+	field := verifrt.Choose("field", 21)
 	if (field == 8 || field == 9) && verifrt.Choose("self-addressed", 2) == 1 {
 		receiver = issuer // a transaction the issuer sends to its own wallet
 	}
@@ -43,7 +43,7 @@ func VH_C04_mutation_rejected() {
 	verifrt.HonestKey(node.Public)
 	ver := wallet.NewVerifier()
 	trx := transaction.Transaction{
-		CreatedAt: time.Unix(0, verifrt.NondetI64("created")), IssuerAddress: issuer.Address(), ReceiverAddress: receiver.Address(),
+		CreatedAt: vhInstant("created"), IssuerAddress: issuer.Address(), ReceiverAddress: receiver.Address(),
 		Subject: verifrt.NondetString("subject", 2, 2), Data: verifrt.NondetBytes("data", 1, 1),
 		Spice: spice.Melange{Currency: verifrt.NondetU64("cur"), SupplementaryCurrency: verifrt.NondetU64("sup")},
 	}
@@ -54,6 +54,9 @@ func VH_C04_mutation_rejected() {
 	}
 	v, err := NewVertex(trx, verifrt.NondetHash("left"), verifrt.NondetHash("right"), verifrt.NondetU64("weight"), &node)
 	verifrt.Assert(err == nil, "C04/mutation/sealed")
+	// the sealing time is any instant (NewVertex takes the clock); re-sealed by the real sign
+	v.CreatedAt = vhInstant("vcreated")
+	v.sign(&node)
 	verifrt.Assert(v.verify(ver) == nil, "C04/mutation/genuine-vertex-verifies")
 	m := v
 	name := ""
@@ -67,9 +70,9 @@ func VH_C04_mutation_rejected() {
 	case 3:
 		name, m.Transaction.ReceiverAddress = "receiver-address", string(vhDiffBytes("receiver'", []byte(trx.ReceiverAddress)))
 	case 4:
-		n := verifrt.NondetI64("created'")
-		verifrt.Assume(n != trx.CreatedAt.UnixNano())
-		name, m.Transaction.CreatedAt = "trx-created-at", time.Unix(0, n)
+		t := vhInstant("created'")
+		verifrt.Assume(t.UnixNano() != trx.CreatedAt.UnixNano())
+		name, m.Transaction.CreatedAt = "trx-created-at", t
 	case 5:
 		n := verifrt.NondetU64("cur'")
 		verifrt.Assume(n != trx.Spice.Currency)
@@ -96,9 +99,9 @@ func VH_C04_mutation_rejected() {
 		verifrt.Assume(n != v.Weight)
 		name, m.Weight = "weight", n
 	case 13:
-		n := verifrt.NondetI64("vcreated'")
-		verifrt.Assume(n != v.CreatedAt.UnixNano())
-		name, m.CreatedAt = "vertex-created-at", time.Unix(0, n)
+		t := vhInstant("vcreated'")
+		verifrt.Assume(t.UnixNano() != v.CreatedAt.UnixNano())
+		name, m.CreatedAt = "vertex-created-at", t
 	case 14:
 		name, m.Hash = "vertex-hash", vhDiffHash("vhash'", v.Hash)
 	case 15:
@@ -110,9 +113,26 @@ func VH_C04_mutation_rejected() {
 			return
 		}
 		name, m.Transaction.ReceiverSignature = "forged-countersignature", verifrt.NondetBytes("rsig'", 64, 64)
+	case 18: // a genuine signature with 1..2 trailing bytes
+		name, m.Signature = "vertex-signature-extended", append(append([]byte{}, v.Signature...), verifrt.NondetBytes("vsig+", 1, 2)...)
+	case 19:
+		name, m.Transaction.IssuerSignature = "issuer-signature-extended", append(append([]byte{}, trx.IssuerSignature...), verifrt.NondetBytes("isig+", 1, 2)...)
+	case 20:
+		if !countersigned {
+			return
+		}
+		name, m.Transaction.ReceiverSignature = "receiver-signature-extended", append(append([]byte{}, trx.ReceiverSignature...), verifrt.NondetBytes("rsig+", 1, 2)...)
 	}
 	verifrt.Assert(m.verify(ver) != nil, "C04/mutation/"+name+"-altered-is-rejected")
 	verifrt.Reach("C04/mutation/end")
+}
+
+// vhInstant: any instant with nanosecond resolution whose UnixNano fits in 64 bits (seconds and nanoseconds
+// given separately so that no division by 10^9 is needed to normalise it).
+func vhInstant(name string) time.Time {
+	sec, nsec := verifrt.NondetI64(name+".sec"), verifrt.NondetI64(name+".nsec")
+	verifrt.Assume(sec > -9_000_000_000 && sec < 9_000_000_000 && nsec >= 0 && nsec < 1_000_000_000)
+	return time.Unix(sec, nsec)
 }
 
 // VH_C04_known_multi_field: the two alterations that the signed encodings do not detect.
